@@ -42,7 +42,10 @@ def _outcome(fn):
     try:
         return "ok", fn()
     except Exception as e:  # noqa: BLE001
-        return type(e).__name__, None
+        # what a caller's `except NonExistingTime:` / `except AmbiguousTime:` clauses would see (not just the class name)
+        from pendulum.tz.exceptions import AmbiguousTime, NonExistingTime
+        kinds = [c.__name__ for c in (NonExistingTime, AmbiguousTime) if isinstance(e, c)]
+        return ("+".join(kinds) if kinds else type(e).__name__), None
 
 
 ENTRY = ("datetime", "datetime_local_str", "create", "convert", "instance", "set", "replace", "replace_fold", "on_at", "on_keep_time_summer", "on_keep_time_winter", "set_foreign", "on_at_foreign",
